@@ -59,10 +59,6 @@ Example C07_lock_history :
   lg_errs (lrun [LLock; LLock; LLock; LUnlock 1; LLock; LUnlock 5]) = 1.
 Proof. vm_compute. split; reflexivity. Qed.
 
-Print Assumptions C07_mask_exact.
-Print Assumptions C07_held_distinct_below_64.
-Print Assumptions C07_locked_iff_held.
-Print Assumptions C07_lock_fresh_or_exhausted.
-Print Assumptions C07_unlock_balanced.
-Print Assumptions C07_structural_blocked.
-Print Assumptions C07_reads_do_not_change_state.
+(** One traversal of the dependency graph for all theorems of this file. *)
+Definition C07_all := (C07_mask_exact, C07_held_distinct_below_64, C07_locked_iff_held, C07_lock_fresh_or_exhausted, C07_unlock_balanced, C07_structural_blocked, C07_reads_do_not_change_state).
+Print Assumptions C07_all.
